@@ -72,6 +72,7 @@ void h_run(Ctx &c)
 	bool moved = false, crossed_fold = false, read_after_257 = false, read_after_fold = false;
 	long nops = t.enumerating ? c.param("ops", 4) : t.range(0, c.param("maxops", 30));
 	unsigned long serial = 1;
+	int nfmt = c.feat(2) ? am_nfmt() : 14; // the wide-field formats were added at feature level 2
 	char buf[512];
 	auto log1 = [&](bool nice, int f, unsigned long a, unsigned long b, unsigned long cc) {
 		am_log(nice, f, a, b, cc);
@@ -90,8 +91,13 @@ void h_run(Ctx &c)
 		switch (t.weighted({ 4, 3, 4, 1, 1, 2 })) {
 		case 0: { // single message
 			bool nice = t.weighted({ 3, 1 }) == 1;
-			int f = (int)t.choose(am_nfmt());
+			int f = (int)t.choose(nfmt);
 			unsigned long a = t.flip() ? t.u32() : t.choose(6), b = t.choose(1000), cc = serial++;
+			if (c.feat(2) && sizeof(unsigned long) > 4 && t.choose(4) == 1) { // arguments are word-sized: use the whole word
+				a |= (unsigned long)t.u32() << 32;
+				b |= (unsigned long)(t.flip() ? 0xffffffffu : t.u32()) << 32;
+				c.cls("argument-wider-than-32-bits");
+			}
 			c.note("%s(fmt %d, %lu, %lu, %lu)", nice ? "mlog_nice" : "mlog", f, a, b, cc);
 			if (nice)
 				c.cls(m.n < 256 ? "nice-recorded" : "nice-dropped");
@@ -107,7 +113,7 @@ void h_run(Ctx &c)
 			case 2: k = 1 + t.choose(600); break;
 			}
 			bool nice = t.weighted({ 5, 1 }) == 1;
-			int f = 2 + (int)t.choose(am_nfmt() - 2);
+			int f = 2 + (int)t.choose(nfmt - 2);
 			c.note("burst of %u x %s(fmt %d, serial...)", k, nice ? "mlog_nice" : "mlog", f);
 			for (unsigned j = 0; j < k; j++) {
 				log1(nice, f, serial, j, serial * 7);
